@@ -70,7 +70,9 @@ func loadProgram(root string) (*Program, error) {
 			p.byPkg[sp.Pkg.Path()] = sp
 		}
 	}
-	for fn := range ssautil.AllFunctions(prog) {
+	all := ssautil.AllFunctions(prog)
+	alignAllClosures(prog, all)
+	for fn := range all {
 		if fn.Pkg == nil && fn.Origin() == nil && fn.Parent() == nil {
 			continue
 		}
@@ -100,6 +102,9 @@ func loadProgram(root string) (*Program, error) {
 // shortName gives "pkg.Func", "pkg.(*T).M", "pkg.(T).M", closures "pkg.(*T).M$1",
 // generic instances "pkg.pick[*ndp.MTU]".
 func shortName(fn *ssa.Function) string {
+	if n, ok := nameOverride[fn]; ok {
+		return n
+	}
 	if fn.Parent() != nil {
 		// anonymous: name is like "Run$1"
 		par := shortName(fn.Parent())
